@@ -502,7 +502,7 @@ def run(focus, seed=None, ops_list=None, profile=None, keep_log=False):
     world.fs.install()
     try:
         if ops_list is None:
-            cfg = gen.swarm(rng, focus)
+            cfg = gen.swarm(rng, focus, (profile or {}).get('tier', 'quick'))
             if FOCUS[focus].get('small'):
                 cfg['nodes'] = cfg['nodes'][:rng.randint(2, 5)]
                 cfg['horizon'] = rng.randint(3, 6)
